@@ -13,6 +13,7 @@ package c03
 import (
 	"fmt"
 	"os"
+	"runtime/pprof"
 	"sort"
 	"strings"
 	"sync"
@@ -68,19 +69,18 @@ type famSpec struct {
 	chainx.Family
 	Pad    int
 	Pruned bool // additionally run the pruned node variants
+	Tail   int  // empty blocks appended after the history (so that history roots fall out of the retention window)
+	Depth  int  // history depth (0 = the tier's)
 }
 
 func families(thorough bool) []famSpec {
 	f := []famSpec{
 		{Family: chainx.Family{Name: "single", MTB: 6}},
 		{Family: chainx.Family{Name: "single-srih", SRIH: true, MTB: 6}},
-		{Family: chainx.Family{Name: "single-mtb2", MTB: 2}, Pruned: true},
+		{Family: chainx.Family{Name: "single-mtb2", MTB: 2}, Pruned: true, Tail: 2},
 	}
 	if thorough {
-		f = append(f,
-			famSpec{Family: chainx.Family{Name: "multi", Multi: true, MTB: 8}, Pad: 1},
-			famSpec{Family: chainx.Family{Name: "single-srih-mtb1", SRIH: true, MTB: 1}, Pruned: true},
-		)
+		f = append(f, famSpec{Family: chainx.Family{Name: "multi", Multi: true, MTB: 8}, Pad: 1, Depth: 2})
 	}
 	return f
 }
@@ -203,20 +203,38 @@ func (cx *ctx) runHistory(sc *chainx.Scenario, fam famSpec, v nodeVariant, h []i
 	if err := take(); err != nil {
 		return nil, err
 	}
+	after := func() error {
+		if v.Flush {
+			old := n.BC.VerifPersistedHeight()
+			if err := n.Persist(); err != nil {
+				return fmt.Errorf("flush: %w", err)
+			}
+			if v.GC {
+				n.BC.VerifTryRunGC(old)
+			}
+		}
+		return nil
+	}
 	blocks, _ := sc.Blocks(h)
 	for i, bb := range blocks {
 		if err := n.AddBytes(bb); err != nil {
 			return nil, fmt.Errorf("block %d rejected: %w", i+1, err)
 		}
 		cx.c.blocks.Inc()
-		if v.Flush {
-			old := n.BC.VerifPersistedHeight()
-			if err := n.Persist(); err != nil {
-				return nil, fmt.Errorf("flush: %w", err)
-			}
-			if v.GC {
-				n.BC.VerifTryRunGC(old)
-			}
+		if err := after(); err != nil {
+			return nil, err
+		}
+		if err := take(); err != nil {
+			return nil, err
+		}
+	}
+	for i := 0; i < fam.Tail; i++ {
+		if _, err := n.AddBlock(); err != nil {
+			return nil, fmt.Errorf("tail block %d rejected: %w", i+1, err)
+		}
+		cx.c.blocks.Inc()
+		if err := after(); err != nil {
+			return nil, err
 		}
 		if err := take(); err != nil {
 			return nil, err
@@ -746,6 +764,12 @@ func TestCheck(t *testing.T) {
 		replay(cx)
 		return
 	}
+	stopProf := func() {}
+	if p := os.Getenv("C03_CPUPROFILE"); p != "" { // development aid
+		if f, err := os.Create(p); err == nil && pprof.StartCPUProfile(f) == nil {
+			stopProf = func() { pprof.StopCPUProfile(); f.Close() }
+		}
+	}
 	depth := vk.Pick(r, 2, 3)
 	names := tplNames(r.Thorough())
 	fams := families(r.Thorough())
@@ -759,9 +783,13 @@ func TestCheck(t *testing.T) {
 			os.Exit(3)
 		}
 		sc.OnTx = func(tpl, st string) { r.Outcome("tx:" + tpl + ":" + st) }
-		hs := sc.BuildTree(depth, func(n int, fn func(int)) { r.Parallel(n, fn) })
+		d := depth
+		if f.Depth != 0 {
+			d = f.Depth
+		}
+		hs := sc.BuildTree(d, func(n int, fn func(int)) { r.Parallel(n, fn) })
 		total := 1
-		for i := 0; i < depth; i++ {
+		for i := 0; i < d; i++ {
 			total *= len(names)
 		}
 		notApplicable += total - len(hs)
@@ -791,6 +819,7 @@ func TestCheck(t *testing.T) {
 			r.Violation(v.key(), v)
 		}
 	})
+	stopProf()
 	var famNames []string
 	for _, f := range fams {
 		famNames = append(famNames, f.Name)
